@@ -28,7 +28,7 @@ PLAN = {
     "thorough": {"shards": 16, "shard_timeout": 3600, "case_timeout": 120, "tournament": 1200000, "lexicase": 1200000, "exhaustive": 40000, "max_case_timeouts": 10},
 }
 THRESHOLDS = {
-    "quick": {"tournament_winners": 4000, "lexicase_winners": 3000, "lexicase_later_winners": 1500, "epsilon_winners": 800, "exhaustive_spaces": 40, "exhaustive_runs": 2000, "tournaments_with_ties": 500},
+    "quick": {"tournament_winners": 4000, "lexicase_winners": 3000, "lexicase_later_winners": 1500, "epsilon_winners": 800, "exhaustive_spaces": 40, "exhaustive_runs": 2000, "tournaments_with_ties": 500, "lexicase_near_equal_values": 300},
     "thorough": {"tournament_winners": 100000, "lexicase_winners": 80000, "exhaustive_spaces": 1000},
 }
 
@@ -38,12 +38,15 @@ def gen_cases(tier, seed):
     plan = PLAN[tier]
     for _ in range(plan["tournament"]):
         n = rng.randint(2, 8)
-        yield {"kind": "tournament", "values": [rng.choice([0, 1, 1, 2, 3, 7]) for _ in range(n)], "size": rng.randint(1, n + 2), "replacement": rng.random() < 0.5, "target": rng.randint(1, n), "minimize": rng.random() < 0.5, "seed": rng.randrange(10**6)}
+        tpool = [0, 1, 1, 2, 3, 7] if rng.random() < 0.7 else [1e-6, 4e-6, 2e-6, 1.0, 1.000001, float("inf"), float("-inf"), 0.0]
+        yield {"kind": "tournament", "values": [rng.choice(tpool) for _ in range(n)], "size": rng.randint(1, n + 2), "replacement": rng.random() < 0.5, "target": rng.randint(1, n), "minimize": rng.random() < 0.5, "seed": rng.randrange(10**6)}
     for _ in range(plan["lexicase"]):
         n = rng.randint(2, 7)
         m = rng.randint(2, 4)
         eps = rng.random() < 0.35
         pool = [0, 1, 2] if not eps else [0, 0.5, 1, 2, 2.5, 4, 10]
+        if not eps and rng.random() < 0.3:  # components that print alike but are not equal
+            pool = [1e-6, 4e-6, 2e-6, 0.5, 0.500001]
         yield {"kind": "lexicase", "values": [[rng.choice(pool) for _ in range(m)] for _ in range(n)], "minimize": [rng.random() < 0.5 for _ in range(m)], "epsilon": eps, "target": rng.randint(1, n), "seed": rng.randrange(10**6)}
     for _ in range(plan["exhaustive"]):
         n = rng.randint(2, 4)
@@ -204,6 +207,8 @@ def run_lexicase(case, rec, src):
         for nth, w in enumerate(step.apply(prob, ev, rep, src, list(inds), case["target"], 1)):
             rec.count("lexicase_winners")
             rec.count("evaluations")
+            if any(0 < abs(a - b) < 1e-4 for row in case["values"] for a in row for b in row) or any(0 < abs(x[c] - y[c]) < 1e-4 for x in case["values"] for y in case["values"] for c in range(len(x))):
+                rec.count("lexicase_near_equal_values")
             if nth > 0:
                 rec.count("lexicase_later_winners")
             if case["epsilon"]:
